@@ -70,6 +70,11 @@ def check_panics(d, rs):
     panics = []                 # (module, on_panic_catch when it panicked) of callback panics, in order
     catching = [mod["catch"] for mod in d["mods"]]      # Stereotyp.on_panic_catch in force, as the log lets a reader follow it
     task_panics = [0] * k
+    body_errs = []              # expected PanicErrors of the start-up phase and the dispatched events
+    end_panic = [False] * k     # the module's at_sim_end callback panicked while its stereotype did not catch
+    spawns = [[] for _ in range(k)]     # (incarnation, id, must) of every JoinHandle, in the order they were handed over
+    fate = {}                   # (module, incarnation, id) -> 0 completed | 1 panicked | 2 dropped with its runtime
+    inc = [0] * k
     for phase, t, mask, recs in run.units():
         ms = {rec_mod(r) for r in recs}
         m = next(iter(ms)) if len(ms) == 1 else None
@@ -91,7 +96,21 @@ def check_panics(d, rs):
             dead[m] = False; pending[m] = False
         after = False
         for r in recs:
-            if after and r[0] not in (R_CANCEL, R_RESET) and phase != "end":
+            if r[0] == R_RESET:
+                inc[m] = r[3]
+            if r[0] == R_SPAWN:
+                if r[3] != inc[m]:
+                    raise Bad("module %d spawns task %d for incarnation %d but has been reset %d times" % (m, r[2], r[3], inc[m]))
+                if r[4] != (d["mods"][m].get("join", 0) >> r[2]) & 1:
+                    raise Bad("module %d hands the handle of task %d to %s, the script says otherwise" % (m, r[2], "join" if r[4] else "try_join"))
+                spawns[m].append((r[3], r[2], r[4]))
+            if r[0] == R_TEND:
+                if (m, r[3], r[2]) in fate:
+                    raise Bad("task %d of module %d (incarnation %d) ends twice" % (r[2], m, r[3]))
+                if not any(sp[0] == r[3] and sp[1] == r[2] for sp in spawns[m]):
+                    raise Bad("task %d of module %d (incarnation %d) ends but was never spawned" % (r[2], m, r[3]))
+                fate[(m, r[3], r[2])] = r[4]
+            if after and r[0] not in (R_CANCEL, R_RESET) and not (r[0] == R_TEND and r[4] == 2) and phase != "end":
                 raise Bad("module %d: %s follows the panic of its callback in the same event" % (m, r))
             if r[0] == R_SETCATCH:
                 catching[m] = r[3]
@@ -101,6 +120,11 @@ def check_panics(d, rs):
                               % (m, r[3], catching[m]))
                 if r[2] == 0:
                     after = True; panics.append((m, catching[m])); dead[m] = True; dead_at[m] = now
+                    if not catching[m]:
+                        if phase == "end":
+                            end_panic[m] = True
+                        else:
+                            body_errs.append((0, m))
                 else:
                     task_panics[m] += 1
         req = request_of(now, recs, m)
@@ -110,19 +134,34 @@ def check_panics(d, rs):
             for i in range(k):
                 if dead[i] and (mask >> i) & 1:
                     raise Bad("is_active(module %d) is true after the event at %d although its callback panicked at %s" % (i, t, dead_at[i]))
-    # errors_exact
-    got_p = [r[2] for r in run.errs if r[1] == 0]
-    want_p = [m for m, c in panics if not c]
-    if got_p != want_p:
-        raise Bad("run() returned PanicErrors for modules %s; the modules that panicked while their stereotype did not catch panics "
-                  "are, in order, %s" % (got_p, want_p))
+    # errors_exact_full: the complete error list, entry by entry (code, module)
+    want = list(body_errs)
+    for m in range(k):
+        if end_panic[m]:
+            want.append((0, m))         # the PanicError of at_sim_end; its join section is skipped
+            continue
+        for (i, tid, must) in spawns[m]:        # try_join handles first, in order
+            if not must and fate.get((m, i, tid)) == 1:
+                want.append((1, m))
+        for (i, tid, must) in spawns[m]:        # then the join handles
+            if must:
+                f = fate.get((m, i, tid))
+                if f is None:
+                    want.append((2, m))
+                elif f == 1:
+                    want.append((1, m))
+                elif f == 2:
+                    want.append((3, m))
     for r in run.errs:
-        if r[1] not in (0, 1) or not 0 <= r[2] < k:
+        if r[1] != (0 if r[3] == 0 else 1) or r[3] not in (0, 1, 2, 3) or not 0 <= r[2] < k:
             raise Bad("unexpected error entry %s" % (r,))
-    for i in range(k):
-        nj = sum(1 for r in run.errs if r[1] == 1 and r[2] == i)
-        if nj > task_panics[i]:
-            raise Bad("%d JoinErrors for module %d but only %d of its tasks panicked" % (nj, i, task_panics[i]))
+    got = [(r[3], r[2]) for r in run.errs]
+    if got != want:
+        i = next((j for j in range(min(len(got), len(want))) if got[j] != want[j]), min(len(got), len(want)))
+        names = {0: "PanicError", 1: "JoinError(Paniced)", 2: "JoinError(NotFinished)", 3: "JoinError(Tokio)"}
+        show = lambda e: "%s of module %d" % (names[e[0]], e[1])
+        raise Bad("run() returned the errors [%s]; the panics, join handles and task ends in the log call for [%s] (first difference at entry %d)"
+                  % (", ".join(show(e) for e in got), ", ".join(show(e) for e in want), i))
     return run, panics, task_panics
 
 
@@ -209,6 +248,15 @@ def mechanisms(script, out):
         ms.add("module_panics_again_after_restart")
     if any(r[1] == 1 for r in run.errs):
         ms.add("join_error_reported")
+    for r in run.errs:
+        if r[3] in (1, 2, 3):
+            ms.add(["", "join_error_paniced", "join_error_not_finished", "join_error_cancelled_by_shutdown"][r[3]])
+    if any(r[0] == R_SPAWN and r[4] == 1 for r in a) and any(r[0] == R_SPAWN and r[4] == 0 for r in a):
+        ms.add("join_and_try_join_handles")
+    if any(r[0] == R_SPAWN and r[3] > 0 for r in a) and any(r[1] == 1 for r in run.errs):
+        ms.add("join_error_with_handles_of_several_incarnations")
+    if any(r[1] == 0 for r in run.errs) and any(r[1] == 1 for r in run.errs):
+        ms.add("panic_and_join_errors_mixed")
     if not run.errs and panics:
         ms.add("run_ok_all_caught")
     if v is not None:
@@ -269,6 +317,8 @@ def gen_script(rng):
         place(d, s)
     for m in d["mods"]:
         m["catch"] = rng.randint(0, 1)
+        # which JoinHandles go to join() rather than try_join()
+        m["join"] = rng.choice([0, 0, 1, 2, 3, 5, 7]) if m["tasks"] else 0
     # the stereotype is a Cell: it may be changed in the very callback that panics (just before the panic!()), in an earlier
     # callback or task of the module, or after the panic
     for (mm, kind, i, pos) in sorted(set(chosen), key=lambda s: -s[3]):
@@ -292,7 +342,7 @@ def gen_script(rng):
 def gen(rng, n):
     for i in range(n):
         if i % 7 == 6:
-            yield gen_random(rng)
+            yield gen_random(rng, joins=True)
         else:
             yield gen_script(rng)
 
